@@ -8,6 +8,7 @@ import (
 	"fmt"
 	"math/big"
 	"math/rand"
+	"strings"
 
 	"github.com/ethereum/go-ethereum/common"
 
@@ -46,6 +47,7 @@ type program struct {
 	inner map[int]*inner         // pre node id -> EVM call made from inside its native action
 	used  map[int]bool           // hook tokens in use
 	next  int
+	direct bool // the transaction calls the precompile itself (root = one pre node, sender = env.direct)
 	body  func(depth int, ctx common.Address, static bool) []*evmx.Node
 	depth int // depth of the frame being generated (for genPre)
 }
@@ -158,6 +160,66 @@ var directedVariants = []string{"delegateV2", "undelegateV2", "redelegateV2", "w
 	"crossChain/hook-token/late-bad-receipt", "bridgeCall/no-value+tst/late-token-fails", "bridgeCall/no-value+wfx+tst/late-token-fails",
 	"transferFromShares/keeper-rejects", "increaseBridgeFee/wfx:fail"}
 
+// benignHook: the hook body returns normally and contains a state-changing precompile call (the point of a hook token:
+// a native action inside the native action)
+func (e *env) benignHook(p *program, in *inner) bool {
+	hasPre, ok := false, true
+	for _, n := range in.hookNode.Body {
+		switch {
+		case n.Op == "sstore":
+		case n.Op == "pre" && n.Kind == evmx.KCall && p.meta[n.ID].mode != "fail" && n.Gas == 0 && (n.Value == nil || n.Value.BitLen() < 90):
+			hasPre = hasPre || e.writer[p.meta[n.ID].method]
+		default:
+			ok = false
+		}
+	}
+	return ok && hasPre
+}
+
+// a directed variant is a failing one when its name says so
+func wantsFailure(want, wantMode string) bool {
+	return wantMode == "fail" || strings.Contains(want, "late-") || strings.Contains(want, "keeper-rejects")
+}
+
+// directCalls: every method/variant called by an externally owned account with the precompile as the transaction's `to`
+func (e *env) directCalls(rng *rand.Rand) []*program {
+	var res []*program
+	for _, want := range directedVariants {
+		wantMode := ""
+		if i := len(want) - len(":fail"); i > 0 && want[i:] == ":fail" {
+			want, wantMode = want[:i], "fail"
+		}
+		var got *program
+		for try := 0; try < 40000 && got == nil; try++ {
+			p := &program{meta: map[int]*meta{}, nodes: map[int]*evmx.Node{}, ctxOf: map[int]common.Address{}, inner: map[int]*inner{}, used: map[int]bool{}, direct: true}
+			p.addrs = []common.Address{e.pool[0], e.pool[1]}
+			e.attachGen(rng, p)
+			p.next = 10
+			nd := &evmx.Node{ID: 10}
+			p.depth = 2
+			mt := e.genPre(rng, p, nd, e.direct.Address(), false)
+			if mt.variant != want || nd.Kind != evmx.KCall || (mt.mode == "fail") != wantsFailure(want, wantMode) || (nd.Value != nil && nd.Value.BitLen() > 90) {
+				continue
+			}
+			if in := p.inner[nd.ID]; in != nil && !e.benignHook(p, in) {
+				continue
+			}
+			nd.Op, nd.Gas, nd.Swallow = "pre", 0, false
+			p.meta[nd.ID] = mt
+			p.nodes[nd.ID] = nd
+			p.ctxOf[nd.ID] = e.direct.Address()
+			p.root = []*evmx.Node{nd}
+			got = p
+		}
+		if got != nil {
+			res = append(res, got)
+		} else {
+			e.cnt("direct-call-not-found:" + want)
+		}
+	}
+	return res
+}
+
 func (e *env) directed(rng *rand.Rand) []*program {
 	var res []*program
 	for _, want := range directedVariants {
@@ -179,15 +241,11 @@ func (e *env) directed(rng *rand.Rand) []*program {
 				nd := &evmx.Node{ID: 10}
 				p.depth = 2 // hook bodies of directed programs stay small
 				mt := e.genPre(rng, p, nd, ctx, false)
-				if mt.variant != want || nd.Kind != evmx.KCall || nd.Gas != 0 || nd.Swallow || (wantMode != "" && mt.mode != wantMode) {
+				if mt.variant != want || nd.Kind != evmx.KCall || nd.Gas != 0 || nd.Swallow || (mt.mode == "fail") != wantsFailure(want, wantMode) {
 					continue
 				}
-				if in := p.inner[nd.ID]; in != nil {
-					hasPre := false
-					evmx.Walk(in.hookNode.Body, 0, func(n *evmx.Node, _ int) { hasPre = hasPre || (n.Op == "pre" && n.Kind == evmx.KCall && e.writer[p.meta[n.ID].method]) })
-					if !hasPre {
-						continue // the point of a hook token: a native action inside the native action
-					}
+				if in := p.inner[nd.ID]; in != nil && !e.benignHook(p, in) {
+					continue
 				}
 				nd.Op = "pre"
 				p.meta[nd.ID] = mt
